@@ -134,6 +134,8 @@ pub fn run(out: &mut Out, tier: &str, rng: &mut Rng) {
         json!({"outputPath": "x", "validationLibrary": "yup"}),
         json!({"outputPath": "pfad/ö", "validationLibrary": "none", "typeMappings": {}}),
         json!({"outputPath": "g", "validationLibrary": "zod", "typeMappings": {"Versioned<Uuid, Rev>": "string", "HashMap<String, u8>": "number", " padded ": "string"}}),
+        // mapping keys in every naming style (they are Rust type names, not settings keys)
+        json!({"outputPath": "m", "validationLibrary": "zod", "typeMappings": {"time_t": "number", "c_char": "string", "my_type": "string", "kebab-name": "string", "camelName": "number", "SCREAMING_NAME": "string", "output_path": "string"}}),
         // path values that some layer might want to "normalise": they are stored and read back as written
         json!({"outputPath": "gen\\out", "validationLibrary": "none"}),
         json!({"outputPath": "~/generated", "validationLibrary": "zod"}),
@@ -161,8 +163,13 @@ pub fn run(out: &mut Out, tier: &str, rng: &mut Rng) {
             }
         };
         if let Some(o) = doc.as_object_mut() {
-            match rng.below(8) {
+            match rng.below(10) {
                 0 => {}
+                // sibling entries whose names resemble the tool's own (the README's spelling of the block, other generators)
+                8 => { o.insert("plugins".into(), json!({"tauri-typegen": {"project_path": ".", "output_path": "readme_out", "validation_library": "zod", "verbose": true},
+                    "typegen2": {"outputPath": "x"}, "Typegen": {"outputPath": "y"}})); }
+                9 => { o.insert("plugins".into(), json!({"tauri-typegen": {"project_path": ".", "output_path": "readme_out", "validation_library": "none"},
+                    "typegen": {"outputPath": "old", "validationLibrary": "zod"}, "tauri_typegen": {"outputPath": "z"}})); }
                 1 => { o.insert("plugins".into(), json!({})); }
                 2 => { o.insert("plugins".into(), json!({"shell": {"open": true}, "fs": rand_value(rng, 2)})); }
                 3 => { o.insert("plugins".into(), json!({"typegen": {"outputPath": "old", "validationLibrary": "zod", "unknownKey": [1, 2]}, "other": 1})); }
